@@ -4,6 +4,7 @@ import AdeuModel.Lemmas.ExtractDoc
 import AdeuModel.Lemmas.MetaIds
 import AdeuModel.Lemmas.ExtractTags
 import AdeuModel.Lemmas.MetaComments
+import AdeuModel.Lemmas.ExtractAll
 /-
 C04 — the text projection is complete, ordered and correctly annotated.
 Statements about `Adeu.Doc.extractText`, the model of `extract_text_from_stream`.
@@ -109,6 +110,14 @@ heading prefixes and separators bare, containers that the raw view drops as empt
 theorem C04_document_annotation (d : Document) :
     ∃ segs : List Seg, extractText false d = render segs ∧ tagsOf segs = docTagged d :=
   doc_tagged d
+
+/-- Completeness of the accepted view for whole documents (domain `domDoc`): it is, character for character and in document
+order, the characters of the document's tagged text (C04_document_annotation) that are not tagged deleted - every run's
+formatted segment outside deletions, heading prefixes, separators - no annotation, nothing else, nothing twice. (One segment
+list carries the raw string, its accepted reading and its tags: `doc_reads3`.) -/
+theorem C04_accepted_view_is_undeleted_characters_partial (d : Document) (h : domDoc d = true) :
+    extractText true d = keptChars (docTagged d) :=
+  extractText_clean_eq_kept d h
 
 /-! Non-vacuity: a paragraph with a deletion, an insertion and a bold run with a line break. -/
 def samplePara : Para :=
